@@ -7,9 +7,11 @@ each to equal the exact value of the tree (XLEval) and all three to be identical
 import json
 import os
 import random
+import shutil
 
 from . import core
 from . import formula as F
+from . import lrtab
 from . import values
 from .values import enc, outcome
 
@@ -114,6 +116,109 @@ def render_by_spec(run, trees):
     return out
 
 
+# ---------------------------------------------------------------- the LR automaton of the live parser
+LR_QUICK = ['MaxToks = 7', 'Ops = {"+", "-", "*", "/", "&", "=", "<>", "<", ">", "<=", ">="}',
+            'LeafForms = {"n"}', 'MaxArgs = 0']
+LR_THOROUGH = [['MaxToks = 9', 'Ops = {"+", "-", "*", "/", "&", "=", "<>", "<", ">="}', 'LeafForms = {"n"}', 'MaxArgs = 0'],
+               ['MaxToks = 8', 'Ops = {"+", "-", "*", "/", "&", "=", "<"}', 'LeafForms = {"n", "p", "c", "d", "v", "r"}',
+                'MaxArgs = 2']]
+
+
+def lr_tree_to_ast(t, rng_vals, env, logical_at=None):
+    """A tree printed by MC_LR -> formula tree with concrete leaves (the i-th leaf takes the i-th value)."""
+    k = t['k']
+    if k == 'leaf':
+        i = len(rng_vals['used'])
+        v = rng_vals['vals'][i % len(rng_vals['vals'])]
+        rng_vals['used'].append(v)
+        if logical_at is not None and i == logical_at:
+            name = 'lg_%d' % i
+            env['vars'][name] = enc(True)
+            return F.var(name)
+        f = t['f']
+        if f == 'n':
+            return F.num(str(v))
+        if f == 'd':
+            return F.num('%d.5' % v)
+        if f == 'f':
+            return F.num('.5')
+        if f == 'p':
+            return F.num('%d%%' % v)
+        if f == 'c':
+            return F.num('%d^2' % v)
+        if f == 'v':
+            name = 'lv_%d' % i
+            env['vars'][name] = enc(v)
+            return F.var(name)
+        if f == 'r':
+            env['cellsets'].append({'key': F.cps('R%d' % (200 + i)), 'vals': [enc(v)]})
+            return F.cell('R%d' % (200 + i))
+        raise core.MachineryError('leaf form %r has no concrete spelling' % f)
+    if k == 'neg':
+        return F.neg(lr_tree_to_ast(t['e'], rng_vals, env, logical_at))
+    if k == 'paren':
+        return F.paren(lr_tree_to_ast(t['e'], rng_vals, env, logical_at))
+    if k == 'bin':
+        l = lr_tree_to_ast(t['l'], rng_vals, env, logical_at)
+        return F.binop(t['op'], l, lr_tree_to_ast(t['r'], rng_vals, env, logical_at))
+    if k == 'call':
+        return F.call('SUM', *[lr_tree_to_ast(a, rng_vals, env, logical_at) for a in t['args']])
+    raise core.MachineryError('tree node %r has no concrete spelling' % k)
+
+
+def lr_model(run, lib, quick, consts):
+    """MC_LR on the tables of the live parser.  A disagreement between the automaton and the declarative
+    reading is only reported when the real parser, given the rendering with concrete leaves, returns
+    something else than the exact value of the tree (Trace_C04 decides)."""
+    try:
+        tabs = lrtab.extract(lib)
+    except lrtab.NoTables as e:
+        run.extra['lr_model'] = 'skipped: %s' % e
+        return
+    d = os.path.join(core.scratch(), 'lr_model')
+    os.makedirs(d, exist_ok=True)
+    with open(os.path.join(d, 'LRTabGen.tla'), 'w') as f:
+        f.write(lrtab.module(tabs))
+    for m in ('MC_LR.tla', 'XLLR.tla'):
+        shutil.copy(os.path.join(core.SPEC, m), d)
+    dis = []
+    states = 0
+    for n, cs in enumerate([LR_QUICK] if quick else LR_THOROUGH):
+        cfg = os.path.join(d, 'MC_LR_%d.cfg' % n)
+        with open(cfg, 'w') as f:
+            f.write('SPECIFICATION Spec\nCONSTANTS\n' + ''.join('  %s\n' % c for c in cs) + 'INVARIANT Check\nCHECK_DEADLOCK FALSE\n')
+        r = core.run_tlc('MC_LR.tla', cfg, cwd=d, timeout=3000)
+        run.add_tlc('MC_LR[%d]' % n, r)
+        dis += core.printed_values(r.out, 'LRDIS')
+    run.extra['lr_model'] = {'lr_states': len(tabs['action']), 'productions': len(tabs['productions']),
+                             'configurations': [LR_QUICK] if quick else LR_THOROUGH,
+                             'disagreements_with_declarative_reading': len(dis)}
+    if not dis:
+        return
+    # confirm on the real parser: several leaf assignments per disagreement (comparisons of comparisons only show with logicals)
+    obs = []
+    seen = set()
+    for v in dis[:400]:
+        toks, tree = v[1], v[2]
+        if tuple(toks) in seen:
+            continue
+        seen.add(tuple(toks))
+        nl = sum(1 for t in toks if t in ('NUMBER', 'VARIABLE', 'RELATIVE_CELL')) or 1
+        for vals, lg in ((PRIMES, None), (PRIMES[::-1][:nl][::1], None), (PRIMES, 0), (PRIMES, nl - 1), ([3, 2, 5, 1, 7, 4, 9, 6, 8], None)):
+            env = base_env()
+            try:
+                ast = lr_tree_to_ast(tree, {'vals': list(vals), 'used': []}, env, lg)
+            except core.MachineryError:
+                continue
+            text = F.render(ast)
+            h = F.Harnessed(lib, env)
+            out = outcome(h.p.parse(text))
+            obs.append({'id': len(obs) + 1, 'ast': ast, 'env': env, 'formulas': [text] * 3, 'in': text, 'outs': [out] * 3,
+                        'lr': {'tokens': toks}})
+    v = core.validate_obs(run, 'Trace_C04', obs, 'lr', consts)
+    core.tally(run, obs, v, 'c04-lr', key=lambda o: o['in'])
+
+
 def main(tier, replay=None):
     run = core.Run('C04', tier, keep_replays=bool(replay))
     values.TOL[0] = 1e-12    # several float operations per formula: rounding accumulates beyond 4 ulp
@@ -122,7 +227,7 @@ def main(tier, replay=None):
     consts = {'Builtins': bconst}
     run.rule = ('one observation = one expression tree evaluated through its minimal, full and redundant parenthesisations; '
                 'distinct by minimal rendering; non-trivial = at least two operators')
-    run.assumptions = ['a comparison operand of another operator is always parenthesised; & and + - * / are never adjacent '
+    run.assumptions = ['comparison operators form one level and chain left to right; & and + - * / are never adjacent '
                        'without parentheses (the property does not rank them)',
                        'float results are accepted within 1e-12 (relative, at least absolute) of the exact rational; exact values whose '
                        'denominator exceeds 100000 are left unspecified',
@@ -136,6 +241,7 @@ def main(tier, replay=None):
         core.tally(run, obs, v, 'c04', key=lambda o: o['in'])
         return run.finish()
     quick = tier == 'quick'
+    lr_model(run, lib, quick, consts)
     cf = os.path.join(core.scratch(), 'c04_cases.ndjson')
     r = core.run_tlc('MC_C04.tla', 'MC_C04_quick.cfg' if quick else 'MC_C04_thorough.cfg', env={'CASE_FILE': cf},
                      timeout=3000)
